@@ -4,6 +4,7 @@ H = 'circuits/web/_httpauth.py'
 T = 'circuits/web/tools.py'
 S = 'circuits/web/sessions.py'
 V = 'circuits/web/dispatchers/virtualhosts.py'
+C = 'circuits/web/controllers.py'
 
 MUTANTS = [
     # --- X list ---------------------------------------------------------------------------------
@@ -28,4 +29,8 @@ MUTANTS = [
     ('c20-gateway-check-removed', 'C20', V, "if self.trusted_gateways is None or request.remote.ip in self.trusted_gateways:", "if True:"),
     # Not listed (equivalent for this property): dropping entries from `required` in _parseDigestAuthorization
     # (a missing directive then raises KeyError = refused); removing the "'/' not in sid" test (IndexError, no data returned).
+    # a handler that raises leaves its request's session bound to the controller (round 14): Controller (first wrapper of the file)
+    ('c20-controller-keeps-session-after-raise', 'C20', C, "            finally:\n                if hasattr(self, 'request'):", "            except Exception:\n                raise\n            else:\n                if hasattr(self, 'request'):"),
+    # ... and JSONController
+    ('c20-jsoncontroller-keeps-session-after-raise', 'C20', C, "                return json.dumps(result)\n            finally:", "                return json.dumps(result)\n            except Exception:\n                raise\n            else:"),
 ]
